@@ -538,6 +538,8 @@ func genFacts(repo string) string {
 	straightFacts(files["metadata.go"], "metadataHandle", "metadataHandle_seq", consts, &out)
 	straightFacts(files["identityprovider.go"], "certificateHandleFunc", "certificateHandle_seq", consts, &out)
 	straightFacts(files["xml.go"], "InflateAndDecode", "inflateAndDecode_seq", consts, &out)
+	straightFacts(files["identityprovider.go"], "getResponseCert", "getResponseCert_seq", consts, &out)
+	straightFacts(files["provider.go"], "getMetadataCert", "getMetadataCert_seq", consts, &out)
 	straightFacts(files["xml.go"], "DecodeAuthNRequest", "decodeAuthNRequest_seq", consts, &out)
 	straightFacts(files["xml.go"], "DecodeLogoutRequest", "decodeLogoutRequest_seq", consts, &out)
 	out.WriteString("(* composite-literal fields of the metadata builders, routes *)\n")
